@@ -137,25 +137,25 @@ def parseLoop (cfg : PCfg) (input : List Nat) : Nat → PState → Outcome × PS
     | top :: _ =>
       if ps.next.2 ≥ T.numSymbols then (.panic "index out of range (token type)", ps) else
       -- action lookup, with error recovery when it is nil
-      let lookup : Except Outcome (Act × PState) :=
+      let lookup : Except (Outcome × PState) (Act × PState) :=
         match T.act top ps.next.2 with
         | some a => .ok (a, ps)
         | none =>
           match recover T cfg.errTerm input ps with
-          | .error why => .error (.panic why)
+          | .error why => .error (.panic why, ps)
           | .ok (false, errTok, ps') =>
             match ps'.states with
-            | t' :: _ => .error (.synErr errTok.1 errTok.2 (T.rowExpected t') t')
-            | [] => .error (.panic "empty stack")
+            | t' :: _ => .error (.synErr errTok.1 errTok.2 (T.rowExpected t') t', ps')
+            | [] => .error (.panic "empty stack", ps')
           | .ok (true, _, ps') =>
             match ps'.states with
             | t' :: _ =>
               match T.act t' ps'.next.2 with
               | some a => .ok (a, ps')
-              | none => .error (.panic "Error recovery led to invalid action")
-            | [] => .error (.panic "empty stack")
+              | none => .error (.panic "Error recovery led to invalid action", ps')
+            | [] => .error (.panic "empty stack", ps')
       match lookup with
-      | .error o => (o, ps)
+      | .error o => o
       | .ok (a, ps) =>
         match a with
         | .accept =>
